@@ -249,7 +249,9 @@ def run(ctx):
                     n_all += 1
                     params = [a.arg for a in st.args.args]
                     defaults = [unparse(d) for d in st.args.defaults]
-                    ret = unparse(body[0].value) if len(body) == 1 and isinstance(body[0], ast.Return) and body[0].value is not None else None
+                    from ..loader import return_text
+                    rt = return_text(st)  # single-assignment locals inlined
+                    ret = rt[len("return "):] if rt and rt.startswith("return ") else None
                     call = "self.isclose(other, rtol=rtol, atol=atol, equal_nan=equal_nan)"
                     ok = params == ["self", "other", "rtol", "atol", "equal_nan"] and defaults == ["1e-05", "1e-08", "False"] \
                         and ret in (f"{call}.all()", f"ak.all({call})", f"numpy.all({call})")
